@@ -12,12 +12,22 @@ G2FREE = ["gfni", "vaes", "vpclmulqdq"]
 G2DEP = ["avx512_vbmi2", "avx512_vnni", "avx512_bitalg", "avx512_vpopcntdq"]
 
 
-def vcpu_cmd(feats):
+def vcpu_cmd(feats, noise=False):
+    """noise: every CPUID bit that is not part of the configuration space is set instead of cleared, so a resolver that
+    looks at a bit it is not supposed to test (wrong mask constant) behaves differently"""
+    feats = list(feats)
+    if noise and "avx512f" in feats and "avx512_vbmi" not in feats:
+        feats.append("avx512_vbmi")
     eax1 = 0x000406d0 | 8 if "avoton" in feats else 0x000806F8
     ecx1 = sum(1 << b for n, b in BIT1C.items() if n in feats)
     edx1 = 1 << 26
     ebx7 = sum(1 << b for n, b in BIT7B.items() if n in feats)
     ecx7 = sum(1 << b for n, b in BIT7C.items() if n in feats)
+    if noise:
+        ecx1 |= 0xFFFFFFFF & ~sum(1 << b for b in BIT1C.values())
+        edx1 = 0xFFFFFFFF
+        ebx7 |= 0xFFFFFFFF & ~sum(1 << b for b in BIT7B.values())
+        ecx7 |= 0xFFFFFFFF & ~sum(1 << b for b in BIT7C.values())
     xcr0 = sum(1 << b for n, b in XCR.items() if n in feats) | 1
     return "vcpu %d %d %d %d %d %d" % (eax1, ecx1, edx1, ebx7, ecx7, xcr0 if "osxsave" in feats else 0)
 
